@@ -278,7 +278,7 @@ fn json_diff(a: &serde_json::Value, b: &serde_json::Value, path: String, out: &m
     }
 }
 
-/// R <hex limits stream>: names of the proc_limits array in the order print_json emits them
+/// R <hex limits stream>: the entries of the proc_limits array (name, soft, hard, unit) in the order print_json emits them
 fn run_limits_names(h: &str) -> String {
     let mut spec = Spec { cpu: "x86".into(), os: "linux".into(), ..Default::default() };
     spec.threads.push(ThreadSpec { id: 1, stack_base: 0x10000, stack: vec![0; 64], regs: Some(vec![]) });
@@ -286,9 +286,15 @@ fn run_limits_names(h: &str) -> String {
     let dump = Minidump::read(build_dump(&spec)).expect("read");
     let rend = exec_a(process_and_render(&dump, string_symbol_supplier(HashMap::new()), 0, None));
     let v: serde_json::Value = serde_json::from_slice(&rend.json).expect("json");
+    // name (hex) : soft : hard : unit (hex)   with a limit rendered as `u` (unlimited), `err` or the decimal number
+    let lim = |x: &serde_json::Value| match x {
+        serde_json::Value::String(t) if t == "unlimited" => "u".to_string(),
+        serde_json::Value::String(t) => t.clone(),
+        other => other.to_string(),
+    };
     let names: Vec<String> = v["proc_limits"]["limits"]
         .as_array()
-        .map(|a| a.iter().map(|e| hex(e["name"].as_str().unwrap_or("").as_bytes())).collect())
+        .map(|a| a.iter().map(|e| format!("{}:{}:{}:{}", hex(e["name"].as_str().unwrap_or("").as_bytes()), lim(&e["soft"]), lim(&e["hard"]), hex(e["unit"].as_str().unwrap_or("?").as_bytes()))).collect())
         .unwrap_or_default();
     format!("R {}", names.join(","))
 }
